@@ -77,6 +77,9 @@ def run(ctx):
     ctx.rule("C14-R7", "async writers emit each field exactly once: the slice handed to poll_write is the unwritten rest, progress is kept in the future across Pending")
     shared.poll_loops(ctx, "C14-R7")
 
+    ctx.rule("C14-R8", "driver-level datagram decode / encode: payload offset = bytes the header parser consumed; header = varint(quarter id)")
+    shared.driver_datagram_tables(ctx, "C14-R8")
+
     ctx.rule("C14-R4", "too-small destination untouched: the first put_* is dominated by capacity >= write_size()")
     for ty, mod in (("Frame", "frame"), ("StreamHeader", "stream_header")):
         f = A.fn("wtransport_proto::%s::%s::write_to_buffer" % (mod, ty))
